@@ -426,6 +426,11 @@ Proof.
     eapply (benign_model' st _ t [IJoin] r); eauto; try thr_simpl; try (nohstart; fail).
     + right. eexists. split; [reflexivity|exact Logic.I].
     + pick_new. newok_tac.
+  - (* IIdle *)
+    inversion H; subst; clear H.
+    eapply (benign_model' st _ t [IIdle] r); eauto; try thr_simpl; try (nohstart; fail).
+    + right. eexists. split; [reflexivity|exact Logic.I].
+    + pick_new. newok_tac.
 Qed.
 
 (** ** start of a command *)
@@ -551,6 +556,9 @@ Proof.
   - (* CJoin *)
     destruct (negb (is_main t)); inversion H; subst; clear H; [auto|].
     split; [|prist st t]. bm0 st t. pick_new. newok_tac.
+  - (* CWaitIdle *)
+    destruct (negb (is_main t)); inversion H; subst; clear H; [auto|].
+    split; [|prist st t]. bm0 st t. pick_new. newok_tac.
   - (* CCNew *)
     destruct (negb (is_main t) || cexists (chs st c)); [inversion H; subst; auto|].
     destruct (wh_add st (HChan c)) as [[st1 wi]|] eqn:E; inversion H; subst; clear H; [|auto].
@@ -628,7 +636,7 @@ Proof.
     { intros s' acc' k' E. eapply pres_norm1 in E; eauto.
       eapply CInv_ceq; [|exact E]. eapply ceq_trans; [apply NS_ceq|apply NS_NS]. }
     destruct k as [|i r]; [inversion H; subst; exact I|].
-    destruct i as [c| |[|bm bms]|bm [|a ls]| |[|b bs]|[|b bs]| | | | | | |];
+    destruct i as [c| |[|bm bms]|bm [|a ls]| |[|b bs]|[|b bs]| | | | | | | |];
       try (inversion H; subst; exact I).
     + eapply IH; [|exact H]. apply Step. reflexivity.
     + eapply IH; [|exact H]. apply Step. reflexivity.
@@ -649,7 +657,7 @@ Proof.
   intros fuel s acc k ev Hk. destruct fuel; [reflexivity|]. cbn [norm].
   destruct k as [|i r]; [reflexivity|].
   pose proof (Hk i (or_introl eq_refl)) as M.
-  destruct i as [c| |[|bm bms]|bm [|a ls]| |[|b bs]|[|b bs]| | | | | | |]; try reflexivity; discriminate.
+  destruct i as [c| |[|bm bms]|bm [|a ls]| |[|b bs]|[|b bs]| | | | | | | |]; try reflexivity; discriminate.
 Qed.
 
 Lemma settle_inv : forall st t ev done st' ev',
@@ -726,6 +734,7 @@ Proof.
     apply fill_loop_nthr in E. lia.
   - destruct (negb (is_main t)); inversion H; subst; cbn; lia.
   - destruct (negb (is_main t)); [|destruct (gnotified st)]; inversion H; subst; cbn; lia.
+  - destruct (negb (is_main t)); inversion H; subst; cbn; lia.
   - destruct (negb (is_main t)); inversion H; subst; cbn; lia.
   - destruct (negb (is_main t)); inversion H; subst; cbn; lia.
   - destruct (negb (is_main t) || cexists (chs st c)); [inversion H; subst; lia|].
@@ -820,6 +829,7 @@ Proof.
     cbn. unfold updN, th. destruct (Nat.eqb_spec u t); [lia|].
     destruct (B u) as [B1 B2]. rewrite B1, B2. apply P. exact Hu.
   - unfold ghost_handler in H. inversion H; subst; clear H. destruct del; (split; [prist st t|exact Ht]).
+  - inversion H; subst; clear H. split; [prist st t|exact Ht].
   - inversion H; subst; clear H. split; [prist st t|exact Ht].
 Qed.
 
